@@ -673,6 +673,70 @@ func extractMuxFacts(repo, root string) error {
 		f.add("remainOnlyFromPrims", false, "message_reader.go not parsed")
 	}
 
+	// ---- connPool.discover: every refresh awaits a promise of its own (Model/PoolDiscover.lean `chanOf fresh`): the
+	// `make(async, …)` whose variable travels in the connRequest and is awaited sits INSIDE the loop, in the block of the
+	// turn that sends and awaits it.
+	if fd := findFunc(tr, "connPool", "discover"); fd != nil {
+		ok, why := false, "no `x := make(async, …)` inside the refresh loop that is both sent in a connRequest and awaited there"
+		ast.Inspect(fd.Body, func(n ast.Node) bool {
+			loop, isFor := n.(*ast.ForStmt)
+			if !isFor {
+				return true
+			}
+			ast.Inspect(loop.Body, func(m ast.Node) bool {
+				blk, isBlk := m.(*ast.BlockStmt)
+				if !isBlk {
+					return true
+				}
+				for i, st := range blk.List {
+					as, isAs := st.(*ast.AssignStmt)
+					if !isAs || as.Tok != token.DEFINE || len(as.Lhs) != 1 || len(as.Rhs) != 1 {
+						continue
+					}
+					c, isCall := as.Rhs[0].(*ast.CallExpr)
+					if !isCall || selPath(c.Fun) != "make" || len(c.Args) < 1 || src(f.fset, c.Args[0]) != "async" {
+						continue
+					}
+					v := src(f.fset, as.Lhs[0])
+					sent, awaited := false, false
+					for _, later := range blk.List[i+1:] {
+						ast.Inspect(later, func(x ast.Node) bool {
+							switch y := x.(type) {
+							case *ast.KeyValueExpr:
+								if src(f.fset, y.Key) == "res" && src(f.fset, y.Value) == v {
+									sent = true
+								}
+							case *ast.CallExpr:
+								if selPath(y.Fun) == v+".await" {
+									awaited = true
+								}
+							}
+							return true
+						})
+					}
+					if sent && awaited {
+						ok, why = true, "(*connPool).discover: `"+v+" := make(async, 1)` in the loop turn that sends it in the connRequest and awaits it"
+					}
+				}
+				return true
+			})
+			return true
+		})
+		// and no promise of the loop is created outside it
+		ast.Inspect(fd.Body, func(n ast.Node) bool {
+			if _, isFor := n.(*ast.ForStmt); isFor {
+				return false
+			}
+			if c, isCall := n.(*ast.CallExpr); isCall && selPath(c.Fun) == "make" && len(c.Args) >= 1 && src(f.fset, c.Args[0]) == "async" {
+				ok, why = false, "(*connPool).discover creates a promise outside the refresh loop"
+			}
+			return true
+		})
+		f.add("discoverPromisePerRefresh", ok, why)
+	} else {
+		f.add("discoverPromisePerRefresh", false, "(*connPool).discover not found")
+	}
+
 	// ---- read.go / discard.go: every primitive charges to its byte budget what it takes off the reader.
 	// For each function `f(r *bufio.Reader, sz int, …)`: every call r.Discard(…) / io.ReadFull(r, …) / r.Read(…) binds its
 	// byte count to a variable, and that variable is subtracted from the budget afterwards (`sz -= n`, `sz = sz - n`, or
